@@ -167,6 +167,10 @@ func main() {
 							panic("handler did not start")
 						}
 						pendingEval()
+						// two more mutations queued behind the running handler: the queue is abandoned
+						go m.Add1("B", nil)
+						go m.Remove1("B", nil)
+						time.Sleep(20 * time.Millisecond)
 						disposeNow()
 						time.Sleep(100 * time.Millisecond)
 						close(release)
@@ -228,6 +232,12 @@ func main() {
 						}
 						if !closedWithin(m.When1("A", nil), time.Second) {
 							r = "When after disposal does not return a closed channel"
+						}
+						if !closedWithin(m.WhenQueueEnds(), time.Second) {
+							r = "WhenQueueEnds after disposal does not return a closed channel"
+						}
+						if !closedWithin(m.WhenQueue(am.Result(m.QueueTick()+5)), time.Second) {
+							r = "WhenQueue after disposal does not return a closed channel"
 						}
 						lc <- r
 					}()
